@@ -222,5 +222,6 @@ vacuity = std_vacuity
 LEVEL_TEXT = ('bounded symbolic model checking as a product over MIR dumps: the crate\'s MIR is regenerated for the feature sets {default}, {package-type} and {} and the same symbolic '
               'input runs through all of them on one path; acceptance, error (incl. its Display text), accessors and canonical string must be identical (solver validity query). '
               'This decides divergence in purl\'s own code between feature sets (cfg-gated code, SmallString alias); the witnesses are replayed on native oracles built with each feature set')
-ASSUMPTIONS = ['String and SmartString share one engine model, so a behavioural difference inside the smartstring crate itself is only sampled by the native replay under each feature set',
+ASSUMPTIONS = ['SmartString::is_inline() is modelled as len <= 23: a string shortened in place stays on the heap in the real crate; values whose representation differs from what their length implies (in-place truncate through builder.parts / get_mut) are outside the claim (seeded changes S7-C17, S7-C19 are not detected)',
+               'String and SmartString share one engine model, so a behavioural difference inside the smartstring crate itself is only sampled by the native replay under each feature set',
                'the {default, serde} set is covered by C16, which runs the same parser paths on the serde dump']
